@@ -563,6 +563,12 @@ def _encode_one_float_array(values, digits, reference):
                     'logmean', 'fpzip', or a number.
     """
 
+    # Infinities and NaNs have no digits to preserve, and neither the truncated
+    # fpzip encoding nor the scaled integers can represent them; an array
+    # containing any is stored at full precision
+    if not np.all(np.isfinite(values)):
+        return _fpzip_encoded('float64', values)
+
     # Handle fpzip method first
     if reference == 'fpzip':
         return _fpzip_encoded('fpzip', values, digits=digits)
